@@ -58,10 +58,19 @@ type c13State struct {
 }
 
 // resolver dispatcher (scripted): answers org.varlink.resolver.GetInfo / Resolve
-type resolverDisp struct{ desc string }
+type resolverDisp struct {
+	desc  string
+	asked int
+}
 
 func (r *resolverDisp) VarlinkGetName() string        { return "org.varlink.resolver" }
-func (r *resolverDisp) VarlinkGetDescription() string { return r.desc }
+func (r *resolverDisp) VarlinkGetDescription() string {
+	r.asked++
+	if r.asked > 1 {
+		return r.desc + "\n# (asked again)"
+	}
+	return r.desc
+}
 func (r *resolverDisp) VarlinkDispatch(ctx context.Context, c varlink.Call, method string) error {
 	switch method {
 	case "GetInfo":
